@@ -139,6 +139,7 @@ func (c *Ctx) userKeys(n int) [][]byte {
 
 type c19Table struct {
 	ikeys  [][]byte
+	stale  []bool // entry added with Builder.AddStaleKey instead of Builder.Add
 	fp     float64
 	bits   int
 	tbl    *table.Table
@@ -148,7 +149,7 @@ type c19Table struct {
 	blocks int
 }
 
-func (c *Ctx) buildC19Table(ikeys [][]byte, fp float64) (*c19Table, error) {
+func (c *Ctx) buildC19Table(ikeys [][]byte, stale []bool, fp float64) (*c19Table, error) {
 	opts := table.Options{BlockSize: 256 + c.Rng.Intn(4096), BloomFalsePositive: fp, TableSize: 1 << 20,
 		Compression: options.None}
 	if c.Rng.Intn(4) == 0 {
@@ -157,7 +158,15 @@ func (c *Ctx) buildC19Table(ikeys [][]byte, fp float64) (*c19Table, error) {
 	b := table.NewTableBuilder(opts)
 	defer b.Close()
 	for i, k := range ikeys {
-		b.Add(k, y.ValueStruct{Value: []byte(fmt.Sprintf("v%d", i)), Meta: 0, UserMeta: byte(i)}, 0)
+		vs := y.ValueStruct{Value: []byte(fmt.Sprintf("v%d", i)), Meta: 0, UserMeta: byte(i)}
+		if stale[i] {
+			// what compaction does for kept tombstones / expired entries / versions below a
+			// discard-earlier marker
+			vs.Meta = 1
+			b.AddStaleKey(k, vs, 0)
+		} else {
+			b.Add(k, vs, 0)
+		}
 	}
 	data := b.Finish()
 	t, err := table.OpenInMemoryTable(data, uint64(c.nCases+1), &opts)
@@ -165,7 +174,7 @@ func (c *Ctx) buildC19Table(ikeys [][]byte, fp float64) (*c19Table, error) {
 		return nil, err
 	}
 	bf, has := t.VerifBloomFilter()
-	return &c19Table{ikeys: ikeys, fp: fp, bits: y.BloomBitsPerKey(len(ikeys), fp), tbl: t, bf: bf, hasBf: has, fpPos: fp > 0}, nil
+	return &c19Table{ikeys: ikeys, stale: stale, fp: fp, bits: y.BloomBitsPerKey(len(ikeys), fp), tbl: t, bf: bf, hasBf: has, fpPos: fp > 0}, nil
 }
 
 func bytesList(bs [][]byte) string {
@@ -185,6 +194,7 @@ func runC19(c *Ctx) error {
 	}
 	var lastTbl *c19Table
 	dbRuns := 0
+	histRuns := 0
 	for i := 0; c.nCases < c.N; i++ {
 		switch i % 12 {
 		case 0, 1: // Hash
@@ -324,9 +334,25 @@ func runC19(c *Ctx) error {
 			if fp > 0 && len(ikeys)*y.BloomBitsPerKey(len(ikeys), fp) > 12000 {
 				fp = 0.01 // keep the filter literal in the Coq case file small (deep terms overflow coqc's stack)
 			}
+			// every entry goes through Builder.Add or Builder.AddStaleKey (random mix; sometimes
+			// all stale, sometimes alternating so that a stale entry follows a different user key)
+			stale := make([]bool, len(ikeys))
+			mode := c.Rng.Intn(5)
+			for j := range stale {
+				switch mode {
+				case 0:
+					stale[j] = false
+				case 1:
+					stale[j] = true
+				case 2:
+					stale[j] = j%2 == 1
+				default:
+					stale[j] = c.Rng.Intn(3) == 0
+				}
+			}
 			var t *c19Table
 			var err error
-			p := recoverPanic(func() { t, err = c.buildC19Table(ikeys, fp) })
+			p := recoverPanic(func() { t, err = c.buildC19Table(ikeys, stale, fp) })
 			if p || err != nil {
 				c.Count("table-build-skipped")
 				continue
@@ -339,10 +365,17 @@ func runC19(c *Ctx) error {
 			}
 			var probes []probe
 			okAdded, okVers := true, true
-			for _, ik := range ikeys {
+			okStale, okMCK := true, true
+			for j, ik := range ikeys {
 				d := t.tbl.DoesNotHave(y.Hash(y.ParseKey(ik)))
-				if d {
+				if d && !stale[j] {
 					okAdded = false
+				}
+				if d && stale[j] {
+					okStale = false
+				}
+				if t.hasBf && !y.Filter(t.bf).MayContainKey(y.ParseKey(ik)) {
+					okMCK = false
 				}
 				if len(probes) < 12 {
 					probes = append(probes, probe{ik, d})
@@ -367,9 +400,15 @@ func runC19(c *Ctx) error {
 			for j, pr := range probes {
 				items[j] = fmt.Sprintf("(%s, %s)", B(pr.k), Bool(pr.dnh))
 			}
-			c.Case("Table", fmt.Sprintf("(Tbl %s %s %s %s %s)", bytesList(ikeys), Bool(t.fpPos), Zz(int64(t.bits)), B(t.bf), ListOf(items)),
-				J{"ikeys": ikeys, "fp": fmt.Sprint(fp)})
-			c.Oracle(okAdded, "table-bloom-hides-added-key", "DoesNotHave(Hash(ParseKey(k))) = true for a key added to the table", J{"ikeys": ikeys, "fp": fmt.Sprint(fp)})
+			adds := make([]string, len(ikeys))
+			for j, ik := range ikeys {
+				adds[j] = fmt.Sprintf("(%s, %s)", Bool(stale[j]), B(ik))
+			}
+			c.Case("Table", fmt.Sprintf("(Tbl %s %s %s %s %s)", ListOf(adds), Bool(t.fpPos), Zz(int64(t.bits)), B(t.bf), ListOf(items)),
+				J{"ikeys": ikeys, "stale": stale, "fp": fmt.Sprint(fp)})
+			c.Oracle(okStale, "table-bloom-hides-stale-added-key", "DoesNotHave(Hash(ParseKey(k))) = true for a key added with Builder.AddStaleKey", J{"ikeys": ikeys, "stale": stale, "fp": fmt.Sprint(fp)})
+			c.Oracle(okMCK, "table-bloom-maycontainkey-false", "Filter(index bloom).MayContainKey(userKey) = false for a key added to the table (Add or AddStaleKey)", J{"ikeys": ikeys, "stale": stale, "fp": fmt.Sprint(fp)})
+			c.Oracle(okAdded, "table-bloom-hides-added-key", "DoesNotHave(Hash(ParseKey(k))) = true for a key added to the table", J{"ikeys": ikeys, "stale": stale, "fp": fmt.Sprint(fp)})
 			c.Oracle(okVers, "table-bloom-hides-other-version", "DoesNotHave = true for another version of an added user key", J{"ikeys": ikeys, "fp": fmt.Sprint(fp)})
 			c.Oracle(t.hasBf == (len(t.bf) > 0) && (t.hasBf == (fp > 0)), "table-bloom-presence", "filter present iff BloomFalsePositive > 0", J{"fp": fmt.Sprint(fp)})
 			if fp > 0 && fp < 1 {
@@ -402,6 +441,14 @@ func runC19(c *Ctx) error {
 					rt = "(Some [])"
 				}
 				c.Case("NewFilterWrap", fmt.Sprintf("(NewF %s %s %s)", u32List([]uint32{h}), Zz(int64(bits)), rt), J{"hs": []uint32{h}, "bits": bits})
+			}
+			// tables written by flushes and compactions of real histories (deletes, expired
+			// entries, discard-earlier markers): every stored user key must pass its table's filter
+			if histRuns < 6+c.N/60 {
+				histRuns++
+				if err := c19HistOracle(c, histRuns); err != nil {
+					return fmt.Errorf("history oracle: %v", err)
+				}
 			}
 			// end-to-end oracle on a real DB (a few per run)
 			if dbRuns < 2+c.N/400 {
@@ -486,4 +533,123 @@ func c19DBOracle(c *Ctx, dir string, fp float64) ([]string, error) {
 		return nil
 	})
 	return missing, err
+}
+
+// c19HistOracle runs a history on a real DB with the shared history helpers (harness/sys.go):
+// writes with deletes, long-expired entries (ExpiresAt = 1) and discard-earlier markers, flushes
+// and production compactions.  A reader opened before the writes (or discardTs = 0 in managed
+// mode) keeps the versions above the discard watermark, so compaction re-adds tombstones,
+// expired entries and versions below a discard marker through Builder.AddStaleKey.  After every
+// flush / compaction every entry of every table is checked against the table's bloom filter.
+func c19HistOracle(c *Ctx, seq int) error {
+	managed := seq%2 == 0
+	o := sysOpts{Managed: managed, Detect: false, NKeep: []int{1, 2, 3}[c.Rng.Intn(3)], MaxLevels: 4, VThreshold: 32,
+		TableSize: int64(256) << uint(c.Rng.Intn(4)), BaseLevelSize: []int64{200, 600, 2 << 10}[c.Rng.Intn(3)]}
+	h, err := newHist(c, o)
+	if err != nil {
+		return err
+	}
+	defer h.close()
+	keys := keySetA[:4+c.Rng.Intn(8)]
+	var trace []string
+	checked, tablesSeen := 0, 0
+	check := func(after string) {
+		misses, nt, ne := h.db.VerifBloomMisses()
+		checked += ne
+		tablesSeen += nt
+		ok := len(misses) == 0
+		var ms []string
+		for _, m := range misses {
+			ms = append(ms, fmt.Sprintf("L%d table %d key %x@%d meta=%d doesNotHave=%v filterMiss=%v", m.Level, m.TableID, m.Key, m.Version, m.Meta, m.ByDoesNotHave, m.ByFilter))
+			if len(ms) >= 5 {
+				break
+			}
+		}
+		c.Oracle(ok, "c19-table-bloom-misses-stored-key", "a table's bloom filter reports a user key stored in that table as absent (Get / key iterators skip the table)",
+			J{"after": after, "misses": ms, "history": append([]string{}, h.desc...), "managed": managed})
+	}
+	nextT := 0
+	var mts uint64 = 1
+	if !managed && c.Rng.Intn(4) != 0 {
+		// a long-lived reader pins the discard watermark
+		h.begin(nextT, false, 0)
+		nextT++
+	}
+	rounds := 3 + c.Rng.Intn(4)
+	for r := 0; r < rounds; r++ {
+		ntx := 1 + c.Rng.Intn(3)
+		for x := 0; x < ntx; x++ {
+			t := nextT
+			nextT++
+			h.begin(t, true, mts)
+			nw := 1 + c.Rng.Intn(5)
+			for w := 0; w < nw; w++ {
+				k := keys[c.Rng.Intn(len(keys))]
+				meta, exp := byte(0), uint64(0)
+				switch c.Rng.Intn(6) {
+				case 0, 1:
+					meta = mDelete
+				case 2:
+					exp = 1
+				case 3:
+					meta = mDiscard
+				}
+				v := []byte(fmt.Sprintf("v%d.%d", r, w))
+				h.modify(t, k, v, meta, byte(c.Rng.Intn(3)), exp)
+			}
+			mts++
+			h.commit(t, mts)
+		}
+		if err := h.flush(); err != nil {
+			return err
+		}
+		trace = append(trace, "flush")
+		check("flush")
+		if managed && c.Rng.Intn(4) == 0 {
+			h.setDiscard(uint64(c.Rng.Intn(int(mts) + 1)))
+		}
+		nc := c.Rng.Intn(3)
+		for x := 0; x < nc; x++ {
+			lvl := 0
+			if c.Rng.Intn(2) == 0 {
+				d := h.db.VerifDump()
+				for l := range d {
+					if len(d[l]) > 0 && c.Rng.Intn(2) == 0 {
+						lvl = l
+					}
+				}
+			}
+			did, err := h.compact(lvl, false, nil)
+			if err != nil {
+				return fmt.Errorf("compact: %w", err)
+			}
+			if did {
+				check(fmt.Sprintf("compact L%d", lvl))
+			}
+		}
+	}
+	// push everything down
+	for l := 0; l < 3; l++ {
+		for x := 0; x < 3; x++ {
+			did, err := h.compact(l, false, nil)
+			if err != nil {
+				return fmt.Errorf("compact: %w", err)
+			}
+			if !did {
+				break
+			}
+			check(fmt.Sprintf("final compact L%d", l))
+		}
+	}
+	c.Count("hist-oracle-histories")
+	if n, _ := c.Extra["hist_entries_checked"].(int); true {
+		c.Extra["hist_entries_checked"] = n + checked
+	}
+	if n, _ := c.Extra["hist_tables_checked"].(int); true {
+		c.Extra["hist_tables_checked"] = n + tablesSeen
+	}
+	if n, _ := c.Extra["hist_compactions"].(int); true {
+		c.Extra["hist_compactions"] = n + h.nCompact
+	}
+	return nil
 }
